@@ -34,3 +34,27 @@ brk("c35-args-conflict-checked-only-against-tree", "hashtree.py", _OLD,
                 if self[hashnum] is not None and new_hashes[hashnum] != leafhash:
 ''',
     "cross-check kept only when the tree already holds the leaf")
+
+# twins of seeded/C35-5: a node supplied in the same call is treated as validated
+_PAR = '''                    if self[parentnum]:
+                        if self[parentnum] != new_parent_hash:
+                            raise BadHashError("h([%d]+[%d]) != h[%d]" %
+                                               (leftnum, rightnum, parentnum))
+'''
+brk("c35-volunteered-parent-trusted-if-grandparent-present", "hashtree.py", _PAR,
+    _PAR + '''                        if parentnum and self[self.parent(parentnum)]:
+                            hashes_to_check[level-1].discard(parentnum)
+''',
+    "seeded/C35-5 itself")
+brk("c35-volunteered-parent-always-trusted", "hashtree.py", _PAR,
+    _PAR + '''                        hashes_to_check[level-1].discard(parentnum)
+''',
+    "any parent that matches its children is dropped from the check set, known or provisional")
+brk("c35-missing-sibling-ok-when-parent-present", "hashtree.py",
+    '''                    if self[siblingnum] is None:
+''',
+    '''                    if self[siblingnum] is None and self[self.parent(i)] is not None:
+                        continue
+                    if self[siblingnum] is None:
+''',
+    "a node whose sibling is withheld is accepted when its parent is in place")
